@@ -3,7 +3,7 @@ import os, re, subprocess, hashlib, shutil, glob
 
 ID = 'C10'
 PROFILES = ['debug']
-THEOREMS = ['C10_dump_is_spec', 'C10_dump_read', 'C10_catalog_keys', 'C10_root_node_keys', 'C10_inner_node_keys', 'C10_page_keys', 'C10_template_keys', 'C10_type_names', 'C10_kids_indirect', 'C10_kid_alternatives', 'C10_recursion_by_name', 'C10_parent_checks', 'C10_rectangles', 'C10_iso_name_lists', 'C10_optional_entries', 'C10_predicates', 'C10_no_pinned_predicates', 'C10_shape', 'C10_accepts_decl', 'C10_rejects_decl', 'C10_accepts', 'C10_rejects_except_known', 'C10_mutation_weaken', 'C10_example_checked', 'C10_any_typed_entries_refuted', 'C10_numtree_pinned_refuted', 'C10_date_pinned_refuted']
+THEOREMS = ['C10_dump_is_spec', 'C10_dump_read', 'C10_catalog_keys', 'C10_root_node_keys', 'C10_inner_node_keys', 'C10_page_keys', 'C10_template_keys', 'C10_type_names', 'C10_kids_indirect', 'C10_kid_alternatives', 'C10_recursion_by_name', 'C10_parent_checks', 'C10_rectangles', 'C10_iso_name_lists', 'C10_optional_entries', 'C10_predicates', 'C10_no_pinned_predicates', 'C10_shape', 'C10_accepts_decl', 'C10_rejects_decl', 'C10_accepts', 'C10_rejects_except_known', 'C10_rejects_not_accepted', 'C10_mutation_weaken', 'C10_example_checked', 'C10_any_typed_entries_refuted', 'C10_numtree_pinned_refuted', 'C10_date_pinned_refuted']
 ROOT = os.path.dirname(os.path.dirname(os.path.abspath(__file__)))
 
 SRC_FILES = ['catalog.rs', 'page_tree.rs', 'page.rs', 'common_data_structures.rs', 'name_tree.rs', 'number_tree.rs']
